@@ -128,6 +128,8 @@ def check_adv(prop, tier, replay):
         extra = c04_order(v, tier, wd, rng)
         pm, pstates = pre_model(v, tier, wd, "C04", jobs, out)
         extra.update(pm)
+        bm, bstates = broadcast_model(v, tier, wd, jobs, out)
+        extra.update(bm)
     if prop in ("C02", "C03") and not replay:
         extra, mstates, mtrans = online_model(v, tier, wd, jobs, out)
         extra.update({"states": mstates, "transitions": mtrans})
@@ -329,6 +331,67 @@ def pre_model(v, tier, wd, which, jobs=None, out=None):
     return {"symbolic_preprocessing_model": {"states": states, "configs": runs, "negative_controls_failed_as_required": neg,
                                              "replayed_outcomes_compared_with_model": compared,
                                              "mismatches": f"{mismatched} mismatches"}}, states
+
+
+def broadcast_model(v, tier, wd, jobs=None, out=None):
+    """Broadcast with abort (Broadcast.tla: round-1 values, round-2 echo of hashes, comparison) over FIFO channels, every
+    interleaving, one corrupted party that equivocates and reports arbitrarily: EquivocationCaught, Agreement, NoFalseAbort,
+    HonestValues, Termination (liveness under weak fairness). Negative control: without the comparison EquivocationCaught
+    must fail. The prediction (every honest party returns InconsistentBroadcast when the corrupted party equivocates, n >= 3)
+    is compared with the replays of the equivocation scenarios on the real code."""
+    q = tier == "quick"
+    states = 0
+    runs = []
+
+    def mc(n, c, honest, weak="none", sim=None):
+        cp = f"{wd}/bc-{n}-{c}-{honest}-{weak}.cfg"
+        with open(cp, "w") as f:
+            f.write(f'SPECIFICATION Spec\nCONSTANTS\n N = {n}\n C = {c}\n Values = {{0, 1}}\n HONESTRUN = {"TRUE" if honest else "FALSE"}\n'
+                    f' WEAK = "{weak}"\nINVARIANT EquivocationCaught\nINVARIANT Agreement\nINVARIANT NoFalseAbort\n'
+                    'INVARIANT HonestValues\nINVARIANT TypeOK\nCHECK_DEADLOCK FALSE\n' + ("" if sim else "PROPERTY Termination\n"))
+        return vlib.run_tlc("Broadcast", cp, wd, workers=1 if sim else 8, timeout=1500, simulate=sim, extra=(["-depth", "90"] if sim else []))
+
+    for (n, c, honest) in [(3, 0, False), (3, 1, False), (3, 2, False), (3, 0, True), (2, 1, False)]:
+        r = mc(n, c, honest)
+        if not r["ok"]:
+            raise vlib.ToolError(f"Broadcast reports an error for N={n} C={c}:\n" + vlib.strip_tlc(r["out"])[-1500:])
+        states += r["distinct"]
+        runs.append({"config": f"N={n},C={c}" + (",honest" if honest else ""), "distinct": r["distinct"]})
+    if not q:
+        r = mc(4, 2, False, sim="num=20000", )
+        if "Error" in r["out"] or "violated" in r["out"]:
+            raise vlib.ToolError("Broadcast (N=4, simulation) reports an error:\n" + vlib.strip_tlc(r["out"])[-1500:])
+        runs.append({"config": "N=4,C=2,simulation num=20000", "distinct": r["distinct"]})
+    r = mc(3, 2, False, weak="no_compare")
+    if r["ok"] or "EquivocationCaught is violated" not in r["out"]:
+        raise vlib.ToolError("negative control failed: Broadcast without the comparison satisfies EquivocationCaught")
+    compared = mismatched = 0
+    if jobs is not None:
+        res = {}
+        cur = None
+        for x in vlib.read_ndjson(out):
+            if x["ev"] == "cfg":
+                cur = x["run"]
+                res[cur] = {}
+            elif x["ev"] == "res":
+                res[cur][x["p"]] = x
+        for j in jobs:
+            t = j["tag"]
+            if not str(t.get("what", "")).startswith("equivocation: a") or j["id"] not in res:
+                continue
+            for vic in t["victims"]:
+                got = res[j["id"]].get(vic)
+                if got is None:
+                    continue
+                compared += 1
+                if got["kind"] != "err" or not (got["err"].endswith(".InconsistentBroadcast") or "Channel" in got["err"]):
+                    mismatched += 1
+                    if mismatched <= 3:
+                        v.spec_drift(f"Broadcast predicts InconsistentBroadcast at every honest party for '{t['what']}', party {vic} of run "
+                                     f"{j['id']} returned {got['kind']} {got['err']}")
+    return {"broadcast_model": {"states": states, "configs": runs, "negative_controls_failed_as_required": 1,
+                                "liveness": "Termination checked under WF(Next) in every exhaustive configuration",
+                                "replayed_outcomes_compared_with_model": compared, "mismatches": f"{mismatched} mismatches"}}, states
 
 
 def c04_order(v, tier, wd, rng):
